@@ -20,7 +20,8 @@ ENGINE = "enumeration"
 TECHNIQUE = "complete enumeration of small link graphs (graph component and end to end through real parsers) against Kahn's algorithm and the constructor call log"
 LEVEL_TEXT = ("Every digraph on up to 4 nodes (quick) / every loop-free digraph on 5 nodes (thorough) is pushed through the ordering component and "
               "checked with an independent validity predicate; every labelled DAG on 4 nodes is linked end to end in every declaration order and the "
-              "constructor log is checked. Exhaustive within those bounds; larger graphs are not explored.")
+              "constructor log is checked; three in ten of those cases also feed a List[...] argument with items of mixed classes. Exhaustive within those "
+              "bounds; larger graphs are not explored.")
 LEVEL_NOTE = ("Trusted: Kahn's algorithm and the order predicate (self-tested); the generated component classes log their constructor calls themselves. "
               "Part (i) addresses the library's internal graph class by name (the property is anchored there); if it is renamed, part (i) reports a "
               "harness error rather than a violation.")
